@@ -175,7 +175,7 @@ def main():
         res["lemma_uses"] = {k: sorted(v) for k, v in used.items()}
         # lemmas
         for lm in getattr(mod, "LEMMAS", []):
-            if a.only and a.only not in lm.name:
+            if a.only and a.only not in lm.name and lm.name not in used and lm.name.replace("lemma/lean/", "lemma/") not in used:
                 continue
             r = lm.check(a.tier)
             res["lemmas"].append(r)
